@@ -245,6 +245,23 @@ def cli_case(arg):
             out["viol"].append(("unparsable-stderr-with-progress", {"rest": junk[:3]}))
         out["sample"] = {"argv": a2, "final_frames": {k.decode(): v for k, v in finals.items()}, "tick_frames": out["ticks"],
                          "delayed_children": bool(rules)}
+        # the same comparison with presentation settings coming from gitconfig (threshold, names style, JSON version) and
+        # the progress switch given explicitly both ways: only the switch differs, stdout must not
+        AMB = [({"sizer.threshold": "0"}, []), ({"sizer.threshold": "30", "sizer.names": "hash"}, []),
+               ({"sizer.jsonVersion": "2", "sizer.names": "none"}, ["--json"]), ({"sizer.threshold": "0", "sizer.progress": "true"}, ["--show-refs"])]
+        cfg, aargv = AMB[idx % len(AMB)]
+        aenv = {"GIT_CONFIG_COUNT": str(len(cfg))}
+        for i_, (k_, v_) in enumerate(sorted(cfg.items())):
+            aenv["GIT_CONFIG_KEY_%d" % i_] = k_
+            aenv["GIT_CONFIG_VALUE_%d" % i_] = v_
+        ra = [R.sizer(sz, gitdir, aargv + sel + roots + [sw], env=aenv, tmpdir=d) for sw in ("--no-progress", "--progress", "--progress=false")]
+        out["evals"] += 3
+        out["ambient_runs"] = out.get("ambient_runs", 0) + 3
+        if any(r.rc != 0 for r in ra):
+            out["viol"].append(("run-failed/settings-from-gitconfig", {"config": cfg, "exit": [r.rc for r in ra], "stderr": ra[0].err[-200:]}))
+        elif not (ra[0].out == ra[1].out == ra[2].out):
+            out["viol"].append(("progress-changes-stdout/settings-from-gitconfig", {"config": cfg, "argv": aargv + sel + roots,
+                                                                                    "stdout_bytes": [len(r.out) for r in ra]}))
         # a stderr that cannot be written (/dev/full) behind slow children, so that ticks happen: progress must not change
         # stdout or the exit status
         if idx % 3 == 0:
@@ -306,6 +323,7 @@ def run(chk, b, tier):
         chk.count(r["evals"])
         chk.bump("cli_failing_runs_with_progress_judged", r.get("fault_runs", 0))
         chk.bump("cli_runs_with_stderr_dev_full", r.get("devfull_runs", 0))
+        chk.bump("cli_runs_with_settings_from_gitconfig", r.get("ambient_runs", 0))
         ticks += r["ticks"]
         for clause, det in r["viol"]:
             chk.violation("C18/cli/" + clause, det)
